@@ -647,6 +647,8 @@ partial def nextAct (tid : Nat) (n : Node) (_a : Act) : M Bool := do
     if count == kids.length then
       let t ← getTask tid
       if flagOf t Consts.TASK_AUOT_COMPLETE true && !t.state.isCompleted then setState tid .completed
+      -- an act that waits to be completed by somebody else (a sub-process call) holds its successor back
+      if !(← getTask tid).state.isCompleted then return true
       match n.next with
       | some nx => discard <| schedTask nx; return true
       | none => pure ()
